@@ -498,6 +498,18 @@ class C14(RebuildProp):
                               repeat=v == 2)
                 c["search_names"] = snames
                 out.append(c)
+        # two torrents whose names collide as FILE versus DIRECTORY: the single-file torrent's file is complete in the
+        # destination; whatever happens to the directory torrent, that file stays
+        for v in (1, 2, 3):
+            for order in (0, 1):
+                tf = mk_tree("S1", (B + 9,), name="album")
+                tf["files"][0].update(cands=[self.cand(rng, "intact", search=0)], dest_pre="correct")
+                td = mk_tree("D2", (B + 5, 2 * B), name="album")
+                for f in td["files"]:
+                    f.update(cands=[self.cand(rng, "intact", search=0)], dest_pre="absent")
+                ts = [tf, td] if order == 0 else [td, tf]
+                out.append({"version": v, "P": B, "tree": ts[0], "more_trees": ts[1:], "nsearch": 1, "unrelated": 1,
+                            "clauses": ["C14.fulllen", "C14.sources"], "meta_args": "files", "route": ("lib", "cli")[order]})
         for v in (1, 2, 3):           # only dead decoys: nothing may be placed
             for sizes in ((B + 1, 2 * B), (5, 3 * B), (2 * B, 2 * B)):
                 out.append(self.scen(rng, B, v, ("D2", sizes), lambda fi, f: [self.cand(rng, "decoy_all")], nsearch=1))
